@@ -330,6 +330,8 @@ class SimEnv:
         self.fail_connect = None            # exception to raise from connect()
         self.reply_filter = None            # fn(header, payload) -> menu override or None
         self.label_fn = None                # fn(header, payload) -> label suffix
+        self.on_fault = None                # fn(kind) called when a link fault is injected
+        self.on_rx = None                   # fn(link_index) called when receive_packet returns a packet
 
 
 def make_driver_class():
@@ -378,6 +380,8 @@ def make_driver_class():
                 if env.chooser(2, 'send_fault') == 1:
                     self.errored = True
                     env.faults.append(('send', now, len(env.tx)))
+                    if env.on_fault:
+                        env.on_fault('send')
                     cb = self.link_error_callback
                     if cb is not None:
                         cb('SimLink: could not send packet')
@@ -436,12 +440,16 @@ def make_driver_class():
             import queue
             try:
                 if wait == 0:
-                    return self.in_queue.get(False)
+                    pk = self.in_queue.get(False)
                 elif wait < 0:
-                    return self.in_queue.get(True)
-                return self.in_queue.get(True, wait)
+                    pk = self.in_queue.get(True)
+                else:
+                    pk = self.in_queue.get(True, wait)
             except queue.Empty:
                 return None
+            if self.env.on_rx:
+                self.env.on_rx(self.index)
+            return pk
 
         def fail_from_driver_thread(self, msg='SimLink: too many packets lost'):
             """Called on an environment thread: what RadioDriver's own thread does on link loss."""
@@ -450,6 +458,8 @@ def make_driver_class():
             self.errored = True
             s = vsched.S
             self.env.faults.append(('driver', s.elapsed() if s else 0.0, len(self.env.tx)))
+            if self.env.on_fault:
+                self.env.on_fault('driver')
             cb = self.link_error_callback
             if cb is not None:
                 cb(msg)
